@@ -184,6 +184,13 @@ def run_moves(case, ctx):
                         got2 = {(key_of(d[key_of('k2')]), key_of(d[key_of('k1')])): d for d in row_dicts(r2)}
                         if set(got2) != set(tup) or not all(same_row(got2[t], base[i]) for i, t in enumerate(tup)):
                             ctx.violation('set_index_hierarchy.unset_index|rows', **info, got=list(got2), expected=tup)
+            # the same with drop=False: every row keeps all its cells, including the key columns, under its own (re-ordered) label
+            r = check('set_index_hierarchy(keep)', lambda: f.set_index_hierarchy(['k2', 'k1'], drop=False, reorder_for_hierarchy=True), lambda: None)
+            if r is not None:
+                got = dict(zip(labels_of(r.index), row_dicts(r)))
+                exp = dict(zip(tup, base))
+                if set(got) != set(tup) or not all(same_row(got[t], exp[t]) for t in tup):
+                    ctx.violation('set_index_hierarchy(keep)|rows', **info, got=sorted(map(repr, got.items())), expected=sorted(map(repr, exp.items())))
             # shift a column into the index (inner level) and out again
             r = check('relabel_shift_in', lambda: f.relabel_shift_in('k1'), lambda: ([(key_of(index[i]), key_of(k1[i])) for i in range(n)], without(base, 'k1')))
             if r is not None:
